@@ -1,6 +1,7 @@
 package c22
 
 import (
+	"regexp"
 	"fmt"
 	"strings"
 	"testing"
@@ -38,16 +39,37 @@ func shuffle(t *rapid.T, xs []string, label string) []string {
 	return out
 }
 
+// two-character numeric directives (zero- or space-padded): the field ends after two characters whatever follows
+var fixed2 = map[string]bool{"%m": true, "%_m": true, "%d": true, "%_d": true, "%H": true, "%_H": true, "%M": true, "%_M": true,
+	"%S": true, "%_S": true, "%I": true, "%_I": true, "%y": true, "%_y": true, "%V": true, "%_V": true, "%W": true, "%_W": true, "%U": true, "%_U": true}
+
+// numeric directives (any padding)
+func numericDir(d string) bool {
+	if len(d) < 2 || d[0] != '%' {
+		return false
+	}
+	c := d[len(d)-1]
+	return strings.IndexByte("YmdjHMSIyCVWUuwG", c) >= 0 && (len(d) == 2 || (len(d) == 3 && (d[1] == '-' || d[1] == '_')))
+}
+
 func joinSep(t *rapid.T, parts []string, label string) string {
 	var b strings.Builder
 	for i, p := range parts {
 		if i > 0 {
-			b.WriteString(pick(t, seps, fmt.Sprintf("%s_sep%d", label, i)))
+			// compact formats (`%Y%m%d`, `%H%M%S`): no separator after a fixed-width field when digits follow
+			if fixed2[parts[i-1]] && numericDir(p) && vgen.Pick(t, 3, fmt.Sprintf("%s_adj%d", label, i)) == 0 {
+				_ = 0
+			} else {
+				b.WriteString(pick(t, seps, fmt.Sprintf("%s_sep%d", label, i)))
+			}
 		}
 		b.WriteString(p)
 	}
 	return b.String()
 }
+
+// a fixed-width numeric field directly followed by another numeric field
+var adjacentRe = regexp.MustCompile(`%_?[mdHMSIyVWU]%[-_]?[YmdjHMSIyCVWUuwG]`)
 
 var (
 	yearDirs  = []string{"%Y", "%-Y", "%_Y"}
@@ -189,6 +211,9 @@ func parseVia(class *value.Class, s string, f *string) (value.Value, value.Value
 func fmtOracle(c FmtCase, ctx *pbt.Ctx) error {
 	ctx.Label("kind:" + c.Kind)
 	ctx.Label("shape:" + c.Shape)
+	if adjacentRe.MatchString(c.Fmt) {
+		ctx.Label("adjacent_numeric_fields")
+	}
 	what := c.String()
 	var v value.Value
 	var err error
